@@ -89,7 +89,7 @@ def run(chk):
     compare.set_exact(True)
     chk.rule = ("generated CSV/TSV files over delimiter {, | ; tab} x quote {\" '} x header yes/no x LF/CRLF x quoting policy {minimal, all, random} x "
                 "final newline yes/no x column kinds {int, float, bool, mixed, text with embedded delimiters/quotes/CR/LF/multi-byte characters} x sizes "
-                "below and above the 4096-byte inference sample; each file is read under ChaosFs read sizes {1,2,3,5,64,4095,4096,4097,random} with "
+                "below and above the 4096-byte inference sample, plus files whose sample ends inside a boolean / after a minus sign / inside an exponent / a multi-byte character / a quoted field / a digit run of the straddling record; each file is read under ChaosFs read sizes {1,2,3,5,64,4095,4096,4097,random} with "
                 "and without Pending, batch_size {1,7,2048}, partitions {1,3}. Oracle: Python's csv module configured with the dialect and header "
                 "decision the engine reported (hook H3), empty field = NULL, values parsed by the inferred type; all read configurations of one "
                 "file must return identical rows. distinct non-trivial = distinct (dialect, column kinds, file size class, read configuration) "
@@ -138,6 +138,58 @@ def run(chk):
             c = {"id": f"c17-{fi}", "exec": {"kind": "det", "policy": "random", "seed": rng.randint(0, 1 << 30), "yield_p": 0.05}, "steps": steps, "max_rows": 100000}
             cases.append(c)
             meta[c["id"]] = (path, text, dict(delim=delim, quote=quote, header=header, lineterm=lineterm, policy=policy, final_nl=final_nl, kinds=kinds, rows=nrows), spec)
+        # files whose 4096-byte inference sample ends inside a chosen token of the record that straddles the boundary: the
+        # incomplete record must not take part in type inference, and the file must stay readable
+        for ai in range(240 if thorough else 40):
+            target = ["bool", "neg", "exp", "multibyte", "quoted", "digits"][ai % 6]
+            lineterm = rng.choice(["\n", "\r\n"])
+            rows = [["id", "flag", "delta", "ratio", "name"]]
+            def mk(i, pad=0):
+                return [str(i), rng.choice(["true", "false"]), str(rng.randint(1, 9999)), rng.choice(["0.5", "12.25", "3"]), "n" + "x" * pad]
+            cross = {"bool": ["7", "true", "5", "0.5", "tail"], "neg": ["7", "false", "-12345", "0.5", "tail"], "exp": ["7", "true", "5", "1e5", "tail"],
+                     "multibyte": ["7", "true", "5", "0.5", "語語語語"], "quoted": ["7", "true", "5", "0.5", "\"a,b\"\"c\""], "digits": ["7", "true", "123456", "0.5", "tail"]}[target]
+            line = ",".join(cross)
+            off = (line.index("true") + 2 if target == "bool" else line.index("-") + 1 if target == "neg" else line.index("1e") + 2 if target == "exp" else
+                   len(line[:line.index("語")].encode()) + 1 if target == "multibyte" else line.index("\"a,b") + 3 if target == "quoted" else line.index("123456") + 3)
+            body = []
+            size = len((",".join(rows[0]) + lineterm).encode())
+            i = 0
+            while True:
+                r = mk(i)
+                ln = len((",".join(r) + lineterm).encode())
+                if size + ln > 4096 - off - 60:
+                    break
+                body.append(r)
+                size += ln
+                i += 1
+            last = mk(i)
+            pad = (4096 - off) - size - len((",".join(last) + lineterm).encode())
+            if pad < 0:
+                continue
+            last[4] += "x" * pad
+            body.append(last)
+            size += len((",".join(last) + lineterm).encode())
+            body.append(cross)
+            for k in range(rng.choice([0, 3, 40])):
+                body.append(mk(1000 + k))
+            text = "".join(",".join(r) + lineterm for r in rows + body)
+            if size != 4096 - off:
+                continue
+            path = os.path.join(d, f"a{ai}.csv")
+            with open(path, "wb") as f:
+                f.write(text.encode("utf-8"))
+            steps = []
+            spec = []
+            for (ch, bs, parts) in [(None, 2048, 1), (rng.choice(CHAOS), rng.choice([1, 7, 2048]), rng.choice([1, 3]))]:
+                pth = path if ch is None else f"chaos:{ch},s{rng.randint(0, 999)}:{path}"
+                steps.append({"sql": f"SET batch_size TO {bs}", "out": "count"})
+                steps.append({"sql": f"SET partitions TO {parts}", "out": "count"})
+                steps.append({"sql": f"SELECT * FROM read_csv('{pth}')"})
+                spec.append((len(steps) - 1, ch, bs, parts))
+            c = {"id": f"c17-a{ai}", "exec": {"kind": "det", "policy": "random", "seed": rng.randint(0, 1 << 30)}, "steps": steps, "max_rows": 100000}
+            cases.append(c)
+            meta[c["id"]] = (path, text, dict(delim=",", quote='"', header=True, lineterm=lineterm, policy="minimal", final_nl=True, kinds=["int", "bool", "int", "float", "text"], rows=len(body), aligned=target), spec)
+            chk.count("sample boundary aligned inside: " + target)
         results, m = vrun.run_sharded(cases, shards=16, wall_s=3000 if thorough else 900)
         infer_differs = 0
         for c in cases:
@@ -186,8 +238,12 @@ def judge_file(chk, c, st, text, gen, what, replay):
     if st["outcome"] == "error":
         first = (st.get("error") or "").split("\n")[0]
         # only a file whose later rows do not fit the type inferred from the sample may legitimately fail
-        if len(text.encode()) > 4096:
+        if len(text.encode()) > 4096 and not gen.get("aligned"):
             chk.count("error_on_file_larger_than_sample")
+            return
+        if gen.get("aligned"):
+            # every value of these files fits the type of its column: nothing can legitimately fail
+            chk.violation({"kind": "unexpected-error", "aligned": gen["aligned"]}, f"{what}: a valid file whose inference sample ends inside a {gen['aligned']} token fails: {first}", replay)
             return
         if notes:
             # ... or a file that is not rectangular under the dialect the engine reports it inferred (dialect inference
@@ -256,5 +312,17 @@ def judge_file(chk, c, st, text, gen, what, replay):
             n = narrowest([r[j] for r in body])
             if n is not None and n != t:
                 chk.violation({"kind": "type-not-narrowest", "got": t, "want": n}, f"{what}: column {j} inferred {t}, narrowest fitting type is {n}; values {[r[j] for r in body][:8]}", replay)
+                return
+    elif gen.get("aligned"):
+        # larger than the sample: the types are the narrowest over the records that are complete inside the first 4096 bytes
+        sample = text.encode()[:4096]
+        cut = max(sample.rfind(b"\n"), 0)
+        srecs = [r for r in csv.reader(io.StringIO(sample[:cut + 1].decode("utf-8", errors="ignore"), newline=""), delimiter=delim, quotechar=quote, doublequote=True) if r != []]
+        sbody = srecs[1:] if has_header else srecs
+        for j, t in enumerate(types):
+            n = narrowest([r[j] for r in sbody if len(r) == ncols])
+            if n is not None and n != t:
+                chk.violation({"kind": "type-not-narrowest", "got": t, "want": n, "aligned": gen["aligned"]},
+                              f"{what}: column {j} inferred {t}; the narrowest type over the {len(sbody)} records complete inside the 4096-byte sample is {n} (the sample ends inside a {gen['aligned']} token of the next record)", replay)
                 return
     chk.count("files_compared_with_python_csv")
